@@ -187,7 +187,11 @@ func (c *ShipConnection) AbortPendingHandshake() {
 
 // close this ship connection
 func (c *ShipConnection) CloseConnection(safe bool, code int, reason string) {
+	first := false
+
 	c.shutdownOnce.Do(func() {
+		first = true
+
 		c.stopHandshakeTimer()
 
 		// handshake is completed if approved or aborted
@@ -233,6 +237,19 @@ func (c *ShipConnection) CloseConnection(safe bool, code int, reason string) {
 
 		c.reportConnectionClosed(handshakeEnd)
 	})
+
+	// an immediate close requested while a graceful close still gives its announce time to be
+	// sent ends the connection now: the caller, e.g. the double connection handling replacing
+	// this connection by a newer one, relies on this connection being gone
+	if !first && !safe {
+		closeCode := 4001
+		if code != 0 {
+			closeCode = code
+		}
+		c.dataWriter.CloseDataConnection(closeCode, reason)
+
+		c.reportConnectionClosed(c.getState() == model.SmeStateComplete)
+	}
 }
 
 // report the end of this connection
